@@ -352,7 +352,8 @@ _BUILTIN_SAMPLES = {
                    '18446744073709551617'],
     'xs:nonNegativeInteger': ['0', '1', '42', '123456789012', '9007199254740993', '18446744073709551617'],
     'xs:positiveInteger': ['1', '2', '42', '123456789012', '9007199254740993', '18446744073709551617'],
-    'xs:date': ['2024-01-31', '1999-12-01', '2000-02-29', '0001-01-01'],
+    'xs:date': ['2024-01-31', '1999-12-01', '2000-02-29', '0001-01-01', '-0044-03-15', '12024-01-01', '-12024-06-30',
+                '2024-01-31Z', '2024-01-31+02:00', '2024-01-31-14:00'],
     'xs:anyURI': ['a.png', 'http://example.org/x', 'file.xml#frag', 'dir/file'],
 }
 
@@ -368,7 +369,8 @@ _BUILTIN_NEG = {
     'xs:nonNegativeInteger': ['', '-1', '1.0', 'a', '-100'],
     'xs:positiveInteger': ['', '0', '-1', '1.0', 'a'],
     'xs:date': ['', '2024-13-01', '2024-02-30', '24-01-01', '2024-1-1', '2024/01/01', '2023-02-29', '0000-01-01',
-                '2024-01-01T00:00:00'],
+                '2024-01-01T00:00:00', '-0044-02-30', '02024-01-01', '12024-02-30', '2024-01-31+14:01', '2024-01-31z',
+                '+2024-01-31'],
     'xs:string': [], 'xs:token': [], 'xs:anyURI': [],
 }
 
